@@ -18,7 +18,7 @@ MODELS = {
     "utf8": "range-over-string / []rune / utf8.Decode*: engine decoder forking on the UTF-8 encoding class",
     "itoa": "strconv.Itoa via the same digit generator as %d",
     "sort": "sort.Slice: real pdqsort_func SSA with an engine swapper",
-    "json": "(*encoding/json.Encoder).Encode: opaque codec that records the value tree handed to it; the JSON text is not modelled",
+    "json": "encoding/json (reflection-driven, not executable): engine model jsonmodel.go - (*Encoder).Encode walks the value along its go/types type (struct tags with omitempty / `-`, embedded-struct field dominance, pointers, interfaces, slices, string-keyed maps, string escaping as encodeState.string incl. SetEscapeHTML, SetIndent layout, integers, booleans, concrete floats) and emits the text as byte terms; Unmarshal / Valid: syntax check then typed decoding for the same shapes; Marshaler types, []byte, `,string`, decoding into interface{} are engine errors",
     "tabulate": "wide mul/div/rem nodes over small-domain variables are replaced by exact lookup tables computed by the engine's evaluator (after case-splitting the other variables where the job allows it)",
 }
 
@@ -80,6 +80,9 @@ def c06_jobs(tier):
         js.append(job("ZZ_C06_Digits", U, n=20, shape=2))
     js.append(job("ZZ_C06_Digits", U, n=4, shape=4))
     js.append(job("ZZ_C06_EvalTotal", U))
+    # every read-only command incl. its warnings on files at the edges of the calendar with day-shifted entries
+    for cmd in range(6):
+        js.append(job("ZZ_C06_Commands", K + "/app/cli", cmd=cmd))
     return js + lemmas()
 
 
@@ -122,6 +125,10 @@ def c01_jobs(tier):
             js.append(job("ZZ_C01_Structure", PZ, L=L, faults=1, fmt=f, rot=r))
     if not q:
         js.append(job("ZZ_C01_Structure", PZ, L=5, faults=0, fmt=1, rot=3))
+    # summary lines vs the specification's blank characters (tab, Unicode Zs): arbitrary bytes
+    for n in range(1, (5 if q else 7) + 1):
+        for kind in (0, 1):
+            js.append(job("ZZ_C01_SummaryLine", PZ, n=n, kind=kind))
     # literals (shared with C16): a thin slice so that C01 stands on its own
     for n in [4, 5, 7]:
         js.append(job("ZZ_C16_TimeAccept", n=n))
@@ -155,6 +162,13 @@ def c09_jobs(tier):
         for f, r in combos:
             js.append(job("ZZ_C09_PrintRoundtrip", U, L=L, fmt=f, rot=r))
     js += [job("ZZ_C16_TimeRoundtrip"), job("ZZ_C16_DurationRoundtrip"), job("ZZ_C16_DateRoundtrip", century=20, _split=65536)]
+    # value-level print round trip through the whole pipeline (parse -> print -> parse -> print)
+    for kind in (0, 1, 2):
+        js.append(job("ZZ_C09_PrintValues", U, kind=kind))
+    for n in ([1, 2, 3] if q else [1, 2, 3, 4, 5]):
+        js.append(job("ZZ_C09_PrintValues", U, kind=3, n=n))
+    for c in ([0, 9, 20] if q else [0, 5, 9, 10, 19, 20, 99]):
+        js.append(job("ZZ_C09_PrintValues", U, kind=4, century=c, _split=65536))
     return js
 
 
@@ -168,6 +182,12 @@ def c07_jobs(tier):
     if tier == "thorough":
         for w in [5, 6]:
             js.append(job("ZZ_C07_ParEquiv", E, n=4, w=w))
+    # longer texts built from lines (blank / short / long / error lines x LF / CRLF): chunk boundaries at every
+    # position relative to blank lines and CR LF pairs (added after finding F9)
+    lines = [(6, 2, 0, 0), (5, 3, 1, 0), (5, 2, 1, 1)] if tier == "quick" else \
+        [(6, 2, 0, 0), (6, 2, 1, 1), (5, 3, 1, 0), (5, 3, 0, 1), (4, 4, 1, 1), (7, 2, 0, 0), (6, 3, 0, 0)]
+    for L, w, op, al in lines:
+        js.append(job("ZZ_C07_Lines", E, L=L, w=w, open=op, alpha=al))
     # the real record parser on generated documents (valid and invalid)
     for L, w in ([(2, 2), (3, 2), (3, 3)] if tier == "quick" else [(2, 2), (3, 2), (3, 3), (4, 2), (4, 3), (4, 4)]):
         js.append(job("ZZ_C07_RealParse", U, L=L, fmt=L % 3, rot=w % 4, faults=1, w=w))
@@ -246,7 +266,9 @@ A_C04 = ["record-count", "record-date-in-file-order", "record-should-total", "re
 A_C05 = ["target-file-still-exists", "bytes-on-disk-are-the-validated-result", "failed-command-leaves-file-untouched", "written-file-is-valid", "track-succeeds-iff-entry-is-valid",
          "command-on-invalid-file-fails", "switch-with-failing-second-step-fails", "failure-has-nonzero-exit-code"]
 A_C11 = ["inserted-line-uses-record-or-file-indentation", "inserted-line-uses-file-line-ending", "repeat-same-outcome",
-         "repeat-yields-identical-bytes", "unanimous-indentation-is-used", "unanimous-line-ending-is-used", "track-on-new-date-succeeds"]
+         "repeat-yields-identical-bytes", "unanimous-indentation-is-used", "unanimous-line-ending-is-used", "track-on-new-date-succeeds",
+         "generated-date-follows-date-separator", "generated-open-range-follows-file-notation", "generated-time-follows-clock-convention",
+         "explicit-value-is-written-as-given", "config-accepted"]
 
 
 def mut(h, L, f, r, **kw):
@@ -308,6 +330,12 @@ def c11_jobs(tier):
     js += [mut("ZZ_Mut_Create", 2, 0, 1), mut("ZZ_Mut_Start", 2, 1, 0 if q else 3, nd=3 if q else 6)]
     if not q:
         js += [mut("ZZ_Mut_Track", 3, 1, 3), mut("ZZ_Mut_Start", 2, 2, 1), mut("ZZ_Mut_Create", 3, 2, 0)]
+    # notation of generated values: n other records x command (0 start, 1 start with explicit values, 2 stop, 3 create, 4 track)
+    for n in ([0, 1] if q else [0, 1, 2]):
+        for cmd in range(5):
+            if n == 2 and cmd in (1, 4):
+                continue
+            js.append(job("ZZ_C11_Notation", C, n=n, cmd=cmd))
     return js
 
 
@@ -353,11 +381,17 @@ def c20_jobs(tier):
         for f, r in (FMT_ROT_QUICK if L < 3 else [(1, 1)]):
             js.append(job("ZZ_C20_Json", U, L=L, faults=1, pretty=(L + f) % 2, fmt=f, rot=r))
     js.append(job("ZZ_C20_Json", U, L=3, faults=1, pretty=0, fmt=0, rot=2) if not q else job("ZZ_C10_ErrPos", U, L=2, fmt=1, rot=1, w=1))
+    # values with symbolic digits (times incl. 0:00 / 24:00 and day shifts, signed durations, should-total)
+    js += [job("ZZ_C20_Values", U, kind=0, pretty=0, small=1), job("ZZ_C20_Values", U, kind=1, pretty=1), job("ZZ_C20_Values", U, kind=2, pretty=0)]
+    if not q:
+        js += [job("ZZ_C20_Values", U, kind=0, pretty=1, small=0)]
     return js
 
 
 def c19_jobs(tier):
-    return [job("ZZ_C19_Step", C, k=1 if tier == "quick" else 2)]
+    if tier == "quick":
+        return [job("ZZ_C19_Step", C, k=1, nb=1)]
+    return [job("ZZ_C19_Step", C, k=1, nb=2), job("ZZ_C19_Step", C, k=2, nb=0)]
 
 
 def c18_jobs(tier):
@@ -386,10 +420,10 @@ CHECKS = {
     "C06": {
         "jobs": c06_jobs,
         "bounds": {
-            "quick": "every byte string of length 0..5 as a whole file; 5 valid prefixes + every 3-byte tail; digit-run templates with 12 symbolic digits (duration, negative duration, should-total, hours+minutes, two entries) and 19 symbolic digits (hours, should-total); arbitrary int64 entry values in evaluation",
+            "quick": "every byte string of length 0..5 as a whole file; 5 valid prefixes + every 3-byte tail; digit-run templates with 12 symbolic digits (duration, negative duration, should-total, hours+minutes, two entries) and 19 symbolic digits (hours, should-total); arbitrary int64 entry values in evaluation; the commands total, today, report (5 aggregations, --fill), tags, print (--with-totals, --sort), json with their warnings and --now on 1-2 records dated 0000-01-01, 0000-01-02, 9999-12-30, 9999-12-31, 2020-02-29, 2019-12-31 x 9 entry shapes (day-shifted ranges and open ranges, 24:00, 12:00am>) at three wall clocks",
             "thorough": "every byte string up to 7 bytes; tails up to 5 bytes; digit runs of 19 and 20 symbolic digits",
         },
-        "outside": "longer arbitrary inputs than the bound (except through the templates); memory exhaustion; very long lines; the JSON text encoder (stub); decimal rendering of the huge numbers in the digit templates",
+        "outside": "longer arbitrary inputs than the bound (except through the templates); memory exhaustion; very long lines; encoding/json itself (model); decimal rendering of the huge numbers in the digit templates; wall clocks in year 0000 / 9999; --fill across thousands of years (slow, not a hang)",
         "stubs": [MODELS["regexp"], MODELS["fmt"], MODELS["utf8"], MODELS["bytealg"], MODELS["builder"], MODELS["json"], MODELS["sort"]],
         "assumptions": COMMON_ASSUME + ["termination is checked against a step budget of 5e6 SSA instructions per path"],
     },
@@ -424,8 +458,8 @@ CHECKS = {
     "C01": {
         "jobs": c01_jobs,
         "bounds": {
-            "quick": "headline: date + every tail of 0..5 bytes; entry line: every indentation style + every tail of 1..6 bytes (n>4: one style per length); range / open-range templates (time shapes x dash spacings x summaries, digits symbolic); line-structure: every kind sequence of 1..4 lines incl. rule-violating continuations (digits and summary bytes symbolic; LF, CRLF, missing final newline; rotating indentation styles); literals: slice of C16",
-            "thorough": "headline tails to 6 bytes, entry tails to 7 bytes, full time-shape templates, structures of up to 4 lines in all 12 line-ending x indentation-rotation combinations and of 5 lines (with and without faults) in one combination each",
+            "quick": "headline: date + every tail of 0..5 bytes; entry line: every indentation style + every tail of 1..6 bytes (n>4: one style per length); range / open-range templates (time shapes x dash spacings x summaries, digits symbolic); line-structure: every kind sequence of 1..4 lines incl. rule-violating continuations (digits and summary bytes symbolic; LF, CRLF, missing final newline; rotating indentation styles); record-summary line and entry-summary continuation line of 1..5 arbitrary bytes (valid UTF-8 asserted two-sided against the blank-character class tab + Unicode Zs); literals: slice of C16",
+            "thorough": "summary lines of 1..7 arbitrary bytes, headline tails to 6 bytes, entry tails to 7 bytes, full time-shape templates, structures of up to 4 lines in all 12 line-ending x indentation-rotation combinations and of 5 lines (with and without faults) in one combination each",
         },
         "outside": "documents longer than the line bound; arbitrary bytes beyond the tail bounds; non-ASCII bytes in headline tails and value parts (asserted neither way); tab between value and summary, blanks inside the should-total parentheses, trailing blanks (asserted neither way, see DESIGN appendix); invalid UTF-8 in summaries (file encoding MUST be UTF-8)",
         "stubs": [MODELS["regexp"], MODELS["fmt"], MODELS["utf8"], MODELS["bytealg"], MODELS["builder"]],
@@ -445,10 +479,10 @@ CHECKS = {
     "C09": {
         "jobs": c09_jobs,
         "bounds": {
-            "quick": "every conforming generated document of 1..3 lines (all kind sequences; 2- to 4-space and tab indentation, LF/CRLF, missing final newline, `/` dates, 12-hour and shifted times, dash spacing, `???` placeholders, explicit plus, summaries with trailing blanks and entry-looking text, extra-indented continuation lines); literal round trips for all times, durations -100000..100000, dates of century 20",
-            "thorough": "documents of 4 lines; all formatting combinations",
+            "quick": "every conforming generated document of 1..3 lines (all kind sequences; 2- to 4-space and tab indentation, LF/CRLF, missing final newline, `/` dates, 12-hour and shifted times, dash spacing, `???` placeholders, explicit plus, summaries with trailing blanks and entry-looking text, extra-indented continuation lines); literal round trips for all times, durations -100000..100000, dates of century 20; whole-pipeline value round trip of one record: range (every hour, minutes 00/07/59, day shifts, dash spacing), open range (12/24-hour, 1-3 placeholder characters), signed two-digit duration, record + entry summary of 1-3 ARBITRARY bytes (incl. CR, NUL, invalid UTF-8), date with every year of centuries 00, 09, 20 in both separators with optional signed should-total",
+            "thorough": "documents of 4 lines; all formatting combinations; summaries of up to 5 arbitrary bytes; centuries 00, 05, 09, 10, 19, 20, 99",
         },
-        "outside": "longer documents; summaries containing a carriage return (known defect F8, see DESIGN) and invalid UTF-8",
+        "outside": "longer documents; longer summaries; finding F8 (a summary line ending in a carriage return) is asserted under its own id and listed in known_findings.json",
         "stubs": [MODELS["regexp"], MODELS["fmt"], MODELS["utf8"], MODELS["builder"]],
         "assumptions": COMMON_ASSUME,
     },
@@ -475,9 +509,9 @@ CHECKS = {
     },
     "C11": {
         "jobs": c11_jobs, "asserts": A_C11,
-        "bounds": {"quick": "style election over 2-3 records with every combination of {4 spaces, 2 spaces, tab} x {LF, CRLF} incl. all ties, run twice under every map iteration order; track/create/start on every conforming 2-line file with 3 formatting combinations",
-                   "thorough": "all 12 line-ending x indentation-rotation combinations, 3-line files"},
-        "outside": "date separator / clock convention / dash spacing / placeholder length of generated values (only indentation, line ending, validity and determinism are asserted); configured preferences",
+        "bounds": {"quick": "style election over 2-3 records with every combination of {4 spaces, 2 spaces, tab} x {LF, CRLF} incl. all ties, run twice under every map iteration order; track/create/start on every conforming 2-line file with 3 formatting combinations; notation of generated values (date separator, 12/24-hour clock, dash spacing, placeholder length) for start / start with explicit --time and --date / stop / create / track on files of 0-1 other records plus an optional target record, each record exhibiting every combination of the four notation choices through a duration, range or open-range entry, under no / slash+12h / dash+24h configured preference",
+                   "thorough": "all 12 line-ending x indentation-rotation combinations, 3-line files; notation with 2 other records (54756 files per command)"},
+        "outside": "notation when the records that exhibit a choice disagree (only determinism is asserted there: the property names no winner); a record whose own entries disagree; times other than 13:05",
         "stubs": MUT_STUBS, "assumptions": MUT_ASSUME,
     },
     "C12": {
@@ -506,19 +540,20 @@ CHECKS = {
     },
     "C20": {
         "jobs": c20_jobs,
-        "bounds": {"quick": "every generated document of 1-2 lines (valid and with injected rule violations): the envelope and view tree handed to the JSON encoder - exactly one of records/errors non-null, per record date/summary/should-total/entries in order with type, minute values, total = sum of entries, diff = total - should, range total = end - start; error views equal to the terminal report's numbers",
-                   "thorough": "3-line documents"},
-        "outside": "well-formedness and escaping of the emitted JSON TEXT for arbitrary bytes (encoding/json is reflection-driven and is stubbed as an opaque codec in the engine; the natively replayed witnesses decode the real text with encoding/json, which samples but does not decide well-formedness); --pretty layout; filters and --sort in klog json (C13)",
+        "bounds": {"quick": "the emitted JSON TEXT (engine model of encoding/json driven by klog's struct declarations and tags, see stubs) of every generated document of 1-2 lines (valid and with injected rule violations; digits and summary bytes symbolic), compact and --pretty: parsed by a reference JSON reader written from RFC 8259 - well-formed, exactly one of records/errors non-null, every object has exactly the documented keys in order with the documented value kinds, per record date/summary/tags/should-total/entries in order with type, summary, tags, start/end notation and minute values, total = sum of entries, diff = total - should, range total = end - start; error objects equal to the terminal report (line, column, length, title, details); one record with a range (symbolic start hour x 4 ends x shifts), open range and signed duration with all digits symbolic",
+                   "thorough": "3-line documents; ranges with every hour 00-24 x minutes 00/01/59 on both ends x day shifts"},
+        "outside": "bytes the generator does not put into summaries (its alphabet is ASCII; the string-escaping part of the model covers arbitrary bytes but is exercised with that alphabet only); filters and --sort in klog json (C13); documents longer than the bound",
         "stubs": [MODELS["json"], MODELS["regexp"], MODELS["fmt"], MODELS["sort"]],
-        "assumptions": COMMON_ASSUME + ["reduced scope: the value tree, not the text (DESIGN section 6)"],
+        "assumptions": COMMON_ASSUME + ["the engine's model of encoding/json (struct tags incl. omitempty and `-`, embedded-struct field dominance, nil slices/pointers as null, string escaping with SetEscapeHTML, SetIndent layout, integers) is trusted; it is validated on every run by replaying all witnesses natively, where the real encoding/json produces the text that the same reference reader and assertions then examine"],
     },
     "C19": {
         "jobs": c19_jobs,
-        "bounds": {"quick": "one inductive step (set / unset / clear, then read back, list order, @name resolution) from a stored database of 0-1 bookmarks; names = optional @ / @@ prefix + 0-2 symbolic printable bytes; three concrete target paths (incl. a space and a sub-directory); the REAL app.Context (ManipulateBookmarks, ReadBookmarks, RetrieveTargetFile, FileRetriever, WriteToFile/ReadFile) on the virtual file system",
-                   "thorough": "stored database of 0-2 bookmarks"},
-        "outside": "the JSON text of bookmarks.json (encoding/json is an opaque faithful codec in the engine: Unmarshal(Encode(v)) = v); non-ASCII names; --create; file-system failures; histories longer than one step are covered inductively only (every command re-reads the file)",
-        "stubs": [MODELS["json"] + "; json.Unmarshal returns a deep copy of the encoded value", VFS_STUB, MODELS["sort"], MODELS["fmt"]],
-        "assumptions": COMMON_ASSUME + ["pre-states are produced by the real `bookmarks set` command, so they satisfy the representation invariant by construction"],
+        "bounds": {"quick": "one inductive step (set / unset / clear, then read back, exact listed names, list order, @name resolution of a used or fresh name) from a stored database of 0-1 bookmarks; names = optional @ / @@ prefix + symbolic printable ASCII bytes incl. `@`, quote and backslash (stored name: 0-1 bytes, operation name: 0-2 bytes), normalised independently of klog; three concrete target paths (incl. a space and a sub-directory); the REAL app.Context (ManipulateBookmarks, ReadBookmarks, RetrieveTargetFile, FileRetriever, WriteToFile/ReadFile) on the virtual file system; bookmarks.json is written and read back as JSON TEXT through the engine's encoding/json model",
+                   "thorough": "stored names of 0-2 bytes; a stored database of 2 bookmarks (prefix-only names)"},
+        "outside": "non-ASCII names; --create; file-system failures; hand-edited bookmarks.json; histories longer than one step are covered inductively only (every command re-reads the file)",
+        "stubs": [MODELS["json"], VFS_STUB, MODELS["sort"], MODELS["fmt"]],
+        "assumptions": COMMON_ASSUME + ["pre-states are produced by the real `bookmarks set` command, so they satisfy the representation invariant by construction",
+                                        "the encoding/json model is validated by the natively replayed witnesses (real encoding/json)"],
     },
     "C18": {
         "jobs": c18_jobs,
@@ -531,10 +566,10 @@ CHECKS = {
     "C07": {
         "jobs": c07_jobs,
         "bounds": {
-            "quick": "every byte string of length 0..4 x worker counts 1..min(n+2,4) x every order in which the workers can deliver their results (all w! orders)",
-            "thorough": "every byte string of length 0..5 x workers 1..4 x all delivery orders; length 4 with 5 and 6 workers (120 / 720 orders)",
+            "quick": "every byte string of length 0..4 x worker counts 1..min(n+2,4) x every order in which the workers can deliver their results (all w! orders); texts of 5-6 lines, each line one of {empty, `a`, `aaa` | `!aa`} x {LF, CRLF}, optionally an unterminated last line, with 2-3 workers (every chunk boundary position relative to blank lines and CR LF pairs in texts up to 31 bytes)",
+            "thorough": "every byte string of length 0..5 x workers 1..4 x all delivery orders; length 4 with 5 and 6 workers (120 / 720 orders); line-built texts of up to 7 lines with 2, 6 lines with 3 and 4 lines with 4 workers",
         },
-        "outside": "longer texts; interleavings finer than result delivery (workers share only immutable strings and the result channel: assumed, not shown); the real record parser as ParseOne (the engine is generic: a deterministic stub ParseOne that echoes the block and flags lines starting with `!` is used; composition with the real parse is covered by C01/C10 serial-vs-parallel jobs)",
+        "outside": "longer texts and other line contents than those listed (finding F9 needed 13 bytes and was outside the arbitrary-bytes bound until the line-built texts were added); interleavings finer than result delivery (workers share only immutable strings and the result channel: assumed, not shown); the real record parser as ParseOne (the engine is generic: a deterministic stub ParseOne that echoes the block and flags lines starting with `!` is used; composition with the real parse is covered by C01/C10 serial-vs-parallel jobs)",
         "stubs": [MODELS["utf8"], MODELS["bytealg"], "goroutines as coroutines under the engine scheduler; channel receive chooses nondeterministically among pending senders (all orders explored); sync.WaitGroup modelled; math.Ceil on concrete floats"],
         "assumptions": COMMON_ASSUME + ["ParseOne is a pure function of its block", "native replay forces the explored delivery order through the build-tag `verif` schedule point in processAsync"],
     },
